@@ -209,7 +209,7 @@ D(cmd) ==
               Pos("DEPTH", "depth", {<<"Builder.toast_base", "depth">>})>>
       [] cmd = "tile-multi-tan" ->
             <<Par("MultiTanProcessor.tile"),
-              Op("--hdu-index", "int", I(0), None, {<<"SimpleFitsCollection", "hdu_index">>}),
+              Op("--hdu-index", "int", None, None, {<<"SimpleFitsCollection", "hdu_index">>}),
               Op("--wcs-key", "key1", S(" "), S(" "), {<<"SimpleFitsCollection", "wcs_key">>}),
               OutdirOp,
               Pos("PATHS", "paths", {<<"SimpleFitsCollection", "paths">>})>>
@@ -566,8 +566,8 @@ AcceptedReaches == E.status = "ok" => \A o \in DOMAIN asg : ~Suppressed(sub, asg
 OutputOnly == {"--print", "--exitcode", "OUT-PATH"}
 ExactlyOneParameter == \A i \in Idx(sub) : LET d == DT[sub][i] IN (d.sel = {} /\ d.also = {} /\ d.o \notin OutputOnly) => Cardinality(d.dest) = 1
 \* (3) an omitted option reaches the library as the library's own default; where the library has none, as the default the help text documents
-DefaultDeviations == {<<"tile-multi-tan", "--hdu-index">>,       \* the CLI passes 0 (first HDU); the library's default None means "first HDU with image data"
-                      <<"view", "--wcs-key">>}                    \* the CLI passes None; SimpleFitsCollection's default is " " (None is treated alike)
+\* (until commit 4ee13a7 tile-multi-tan --hdu-index was a second entry: argparse default 0 against the library's None)
+DefaultDeviations == {<<"view", "--wcs-key">>}                    \* the CLI passes None; SimpleFitsCollection's default is " " (None is treated alike)
 \* (the two astrometry-source options select a source: omitted, they select nothing)
 OmittedIsDefault(s, a, e, o) == LET d == DeclOf(s, o) IN
     o \notin {"--avm-from", "--fits-wcs"} => \A cp \in d.dest : HasArg(e, cp) => IF d.lib = Req THEN Arg(e, cp) = d.def ELSE SameValue(Arg(e, cp), d.lib)
